@@ -17,7 +17,8 @@ ID = "C16"
 LEVEL = "exploration"
 RULE = ("pairs of G_prog scripts that agree on phase names, initial phase and default transitions, share one "
         "function table, <t>, <dt> and a read-only <state>in, write disjoint persistent variables, and draw "
-        "their temporaries, loop counters and statement ids from the same pools (so they overlap); predicates in "
+        "their temporaries, loop counters and statement ids from the same pools (so they overlap; 40%: one method "
+        "registers functions under plain names the other may use for temporaries); predicates in "
         "{none given, rename everything non-persistent, rename nothing, random subset}; plus disagreeing pairs "
         "(different initial phase / default transition) which must raise ValueError. distinct = canonical JSON of "
         "(script1, script2, predicate); non-trivial = the two methods share >=1 temporary name and >=1 statement id")
